@@ -196,3 +196,39 @@ func VerifC14_LongerDomains() {
 	}
 	verifRedactCheckText("x@" + string(tail))
 }
+
+// VerifC14_LongLabels: domain labels and local parts far longer than the
+// all-bytes bounds reach - lengths on both sides of the DNS limits a scanner
+// might be tempted to build in (63-byte label, 253/255-byte name) and a few in
+// between: "<local>@<label><tail>" with the first and last byte of the long
+// part symbolic over the alphabet that matters (letter, digit, '-', '.'), the
+// rest a fixed letter, and every tail shape (end of text, ".c", ".co more",
+// " more", "@x.y"): the result equals the reference redactor's - a long token
+// after '@' is redacted up to its own end and nothing behind it is swallowed.
+//
+//verif:reach redacted unchanged
+//verif:unwind 600
+//verif:paths 100000
+func VerifC14_LongLabels() {
+	lens := []int{2, 62, 63, 64, 65, 130}
+	if sym.Tier() > 0 {
+		lens = []int{2, 31, 62, 63, 64, 65, 66, 127, 128, 129, 252, 253, 254, 255, 256, 300}
+	}
+	n := lens[sym.Choice("longPartLen", len(lens))]
+	long := make([]byte, n)
+	for i := range long {
+		long[i] = 'h'
+	}
+	edge := func(name string) byte {
+		c := sym.Byte(name)
+		sym.Assume(c == 'a' || c == '7' || c == '-' || c == '.')
+		return c
+	}
+	long[0], long[n-1] = edge("firstByte"), edge("lastByte")
+	tail := []string{"", ".c", ".co more bob@ex.org", " more", "@x.y"}[sym.Choice("tail", 5)]
+	if sym.Bool("longLocalPart") {
+		verifRedactCheckText("see " + string(long) + "@ex.com" + tail)
+	} else {
+		verifRedactCheckText("key k@" + string(long) + tail)
+	}
+}
